@@ -199,7 +199,7 @@ def run(c):
     progs += programs(rnd, 8 if c.quick else 150)
     deadline = time.time() + (9 if c.quick else 200)
     explored = dc.explore_into(runs, c, progs, 12 if c.quick else 150, 5 if c.quick else 40, deadline, bound=1 if c.quick else 2,
-                               max_steps=1500)
+                               max_steps=1500, gap_runs=6)
     laps["explore_s"] = round(time.time() - t0 - laps["model+replay_s"], 1)
     dc.validate(c, runs, TINVS, describe)
     laps["validate_s"] = round(time.time() - t0 - laps["model+replay_s"] - laps["explore_s"], 1)
